@@ -2,7 +2,9 @@
 // SQL query it affects. The real livesql / sqlgen / reactive code runs against
 // the in-memory engine of package fakesql; committed row changes are turned
 // into binlog row events (in the forms go-mysql's decoder produces) and fed
-// to the production RunPollLoop through livesql.NewBinlogForVerif. At observed
+// to the production RunPollLoop through livesql.NewBinlogForVerif - on half of
+// the histories interleaved with the events of untracked tables of a shared
+// server whose restarts re-assign every table's id. At observed
 // quiescence every live query must hold exactly the rows the database returns
 // for its filter. A second, sequential monitor checks that the in-memory row
 // tester agrees with what the database returns for a filter.
@@ -426,6 +428,127 @@ type history struct {
 
 	queries []*liveQuery
 	byID    map[int]*liveQuery
+
+	// shared server (guarded by mu): the change log also carries the traffic of
+	// tables this LiveDB does not track, and the server hands table ids out
+	// from a counter that restarts with the server
+	shared          bool
+	sharedR         *rand.Rand
+	foreign         []foreignTable
+	foreignIDs      map[string]uint64 // "schema.table" -> current table id
+	foreignAnnounce map[uint64]string // id -> foreign table it was last announced for
+	trackedAnnounce map[uint64]string // id -> tracked table it was last announced for
+	foreignEvents   int
+	restarts        int
+	idCollisions    map[string]int
+}
+
+// foreignTable is a table whose events share the change log with the tracked
+// tables: a table of another database (possibly with the name of a tracked
+// table) or a table of the tracked database that has no descriptor in the
+// sqlgen schema.
+type foreignTable struct {
+	schema, table string
+	cols          int
+}
+
+func (f foreignTable) name() string { return f.schema + "." + f.table }
+
+var foreignTables = []foreignTable{
+	{"otherdb", "wides", 2},   // same name as a tracked table, other database
+	{"otherdb", "audit", 3},   // other database
+	{database, "sessions", 2}, // tracked database, no descriptor
+	{database, "tinies_archive", 3},
+	{"mysql", "gtid_executed", 1},
+}
+
+// foreignPair is the change-log footprint of one committed write on a foreign
+// table: its table map and one rows event. Caller holds h.mu.
+func (h *history) foreignPair() []*replication.BinlogEvent {
+	f := h.foreign[h.sharedR.Intn(len(h.foreign))]
+	id := h.foreignIDs[f.name()]
+	typ := []replication.EventType{replication.WRITE_ROWS_EVENTv2, replication.UPDATE_ROWS_EVENTv2, replication.DELETE_ROWS_EVENTv2}[h.sharedR.Intn(3)]
+	nrows := 1
+	if typ == replication.UPDATE_ROWS_EVENTv2 {
+		nrows = 2
+	}
+	var rows [][]interface{}
+	for k := 0; k < nrows; k++ {
+		row := make([]interface{}, f.cols)
+		for c := range row {
+			if c == 0 {
+				row[c] = int64(h.sharedR.Intn(50))
+			} else {
+				row[c] = fmt.Sprintf("v%d", h.sharedR.Intn(50))
+			}
+		}
+		rows = append(rows, row)
+	}
+	h.foreignEvents++
+	h.foreignAnnounce[id] = f.name()
+	delete(h.trackedAnnounce, id)
+	h.eventLog = append(h.eventLog, fmt.Sprintf("untracked table %s: TABLE_MAP + %s [table id %d]", f.name(), typ, id))
+	return []*replication.BinlogEvent{tableMapEvent(f.schema, f.table, id, f.cols), rowsEvent(f.schema, f.table, id, typ, rows)}
+}
+
+// assignIDs models what a (re)started server does: every table gets its id
+// from a counter that starts low, in the order in which the tables are first
+// opened (seeded). Ids of distinct tables are distinct at any time, but an id
+// may denote another table than it did before the restart. Caller holds h.mu.
+func (h *history) assignIDs() {
+	var names []string
+	for _, t := range tableNames {
+		names = append(names, "T:"+t)
+	}
+	for _, f := range h.foreign {
+		names = append(names, "F:"+f.name())
+	}
+	h.sharedR.Shuffle(len(names), func(a, b int) { names[a], names[b] = names[b], names[a] })
+	base := uint64(10 + h.sharedR.Intn(3))
+	for k, n := range names {
+		if n[0] == 'T' {
+			h.tableIDs[n[2:]] = base + uint64(k)
+		} else {
+			h.foreignIDs[n[2:]] = base + uint64(k)
+		}
+	}
+}
+
+// restart: the server restarts (the replication client reconnects and keeps
+// streaming); afterwards the other tenants of the server are busy for a
+// moment.
+func (h *history) restart() {
+	h.mu.Lock()
+	defer h.mu.Unlock()
+	h.restarts++
+	h.assignIDs()
+	var parts []string
+	for _, t := range tableNames {
+		parts = append(parts, fmt.Sprintf("%s=%d", t, h.tableIDs[t]))
+	}
+	h.eventLog = append(h.eventLog, "server restart: table ids re-assigned ("+strings.Join(parts, " ")+")")
+	var events []*replication.BinlogEvent
+	for k := h.sharedR.Intn(3); k > 0; k-- {
+		events = append(events, h.foreignPair()...)
+	}
+	if len(events) > 0 {
+		atomic.AddInt64(&h.enqueued, int64(len(events)))
+		h.deliverCh <- events
+	}
+}
+
+// noteTrackedAnnounce records that a table map announces id for a tracked
+// table and counts the re-assignments the history exercises. Caller holds h.mu.
+func (h *history) noteTrackedAnnounce(table string, id uint64) {
+	if f, ok := h.foreignAnnounce[id]; ok {
+		h.idCollisions["tracked_table_announced_under_id_last_announced_for_untracked_table"]++
+		h.eventLog = append(h.eventLog, fmt.Sprintf("(table id %d last announced %s, now announces %s)", id, f, table))
+		delete(h.foreignAnnounce, id)
+	}
+	if o, ok := h.trackedAnnounce[id]; ok && o != table {
+		h.idCollisions["tracked_table_announced_under_id_last_announced_for_other_tracked_table"]++
+	}
+	h.trackedAnnounce[id] = table
 }
 
 func (h *history) activity() int64 {
@@ -587,6 +710,16 @@ func (h *history) onCommit(changes []fakesql.RowChange) {
 		if def, ok := h.eng.Def(table); ok {
 			ncols = len(def.Columns) // what MySQL's table map reports, whatever a fault did to the rows
 		}
+		if h.shared {
+			h.eventLog[len(h.eventLog)-1] += fmt.Sprintf(" [table id %d]", id)
+			line := h.eventLog[len(h.eventLog)-1]
+			h.eventLog = h.eventLog[:len(h.eventLog)-1]
+			if h.sharedR.Intn(3) == 0 {
+				events = append(events, h.foreignPair()...)
+			}
+			h.noteTrackedAnnounce(table, id)
+			h.eventLog = append(h.eventLog, line) // in delivery order
+		}
 		events = append(events, tableMapEvent(database, table, id, ncols), rowsEvent(database, table, id, typ, rows))
 	}
 	var curTable string
@@ -622,6 +755,9 @@ func (h *history) onCommit(changes []fakesql.RowChange) {
 		}
 	}
 	flush(curTable, curKind, rows)
+	if h.shared && len(events) > 0 && h.sharedR.Intn(4) == 0 {
+		events = append(events, h.foreignPair()...)
+	}
 	if len(events) > 0 {
 		atomic.AddInt64(&h.enqueued, int64(len(events)))
 		h.deliverCh <- events
@@ -878,6 +1014,8 @@ func (h *history) apply(ctx context.Context, op writeOp) {
 		_, err = h.db.QueryExecer(ctx).ExecContext(ctx, "UPDATE "+op.table+" SET deleted_at = ? WHERE "+where, append([]interface{}{val}, args...)...)
 	case "RenewTableID":
 		h.renewTableID(op.table, op.renew)
+	case "Restart":
+		h.restart()
 	case "Tx":
 		txctx, tx, terr := h.db.WithTx(ctx)
 		if terr != nil {
@@ -933,6 +1071,22 @@ func runHistory(run *vlib.Run, i int, fixed *fixedPlan) {
 	for k, t := range tableNames {
 		h.forms[t] = binlogForms(h.schema.ByName[t], textAsBlob)
 		h.tableIDs[t] = uint64(10 + k)
+	}
+	// The server may be shared: its change log then also carries the events of
+	// tables of other databases and of tables of this database that have no
+	// descriptor, and its table ids come from one counter for all of them that
+	// restarts with the server. (Own random stream: the rest of the history is
+	// the same with and without it.)
+	sr := run.Rand("shared-server", i)
+	h.foreignIDs, h.foreignAnnounce, h.trackedAnnounce, h.idCollisions = map[string]uint64{}, map[uint64]string{}, map[uint64]string{}, map[string]int{}
+	if fixed == nil && sr.Intn(2) == 0 {
+		h.shared = true
+		h.sharedR = rand.New(rand.NewSource(sr.Int63()))
+		perm := sr.Perm(len(foreignTables))
+		for _, k := range perm[:2+sr.Intn(len(foreignTables)-1)] {
+			h.foreign = append(h.foreign, foreignTables[k])
+		}
+		h.assignIDs()
 	}
 	conn := h.eng.Open()
 	defer conn.Close()
@@ -1204,6 +1358,18 @@ func runHistory(run *vlib.Run, i int, fixed *fixedPlan) {
 			plans[w] = append(plans[w][:at:at], append(mid, plans[w][at:]...)...)
 		} else {
 			plans[w] = append(plans[w][:at:at], append(append([]writeOp{first}, later...), plans[w][at:]...)...)
+		}
+	}
+
+	if h.shared && schemaChange != "reorder" {
+		// server restarts somewhere in the writers' plans. (Not together with a
+		// column reorder: a restart makes RunPollLoop read the columns again, and
+		// an event produced before the reorder but decoded after it with the new
+		// column list is the mis-decode its code comment accepts.)
+		for k := sr.Intn(3); k > 0; k-- {
+			w := sr.Intn(nWriters)
+			at := sr.Intn(len(plans[w]) + 1)
+			plans[w] = append(plans[w][:at:at], append([]writeOp{{kind: "Restart"}}, plans[w][at:]...)...)
 		}
 	}
 
@@ -1479,6 +1645,18 @@ func runHistory(run *vlib.Run, i int, fixed *fixedPlan) {
 		}, h.activity, 5*time.Second, 10*time.Second)
 	}
 
+	if h.shared {
+		// the other tenants were busy before the first tracked write
+		h.mu.Lock()
+		var events []*replication.BinlogEvent
+		for k := len(h.foreign) + sr.Intn(3); k > 0; k-- {
+			events = append(events, h.foreignPair()...)
+		}
+		atomic.AddInt64(&h.enqueued, int64(len(events)))
+		h.deliverCh <- events
+		h.mu.Unlock()
+	}
+
 	// writers
 	var wg sync.WaitGroup
 	for w := range plans {
@@ -1620,6 +1798,18 @@ func runHistory(run *vlib.Run, i int, fixed *fixedPlan) {
 	run.Count("twin_slow_reads_overlapping_a_delivered_commit", int(atomic.LoadInt64(&h.slowReadsOverlapped)))
 	run.Count("decode_failures_logged_by_binlog", len(decodeErrors))
 	run.Count("protocol:"+proto, 1)
+	server := "own"
+	if h.shared {
+		h.mu.Lock()
+		server = fmt.Sprintf("shared/restarts=%d", h.restarts)
+		run.Count("histories_on_shared_server", 1)
+		run.Count("server_restarts", h.restarts)
+		run.Count("untracked_table_events", h.foreignEvents)
+		for k, n := range h.idCollisions {
+			run.Count(k, n)
+		}
+		h.mu.Unlock()
+	}
 	if schemaChange != "" {
 		run.Count("schema_change:"+schemaChange, 1)
 	}
@@ -1650,7 +1840,7 @@ func runHistory(run *vlib.Run, i int, fixed *fixedPlan) {
 		fk = append(fk, k)
 	}
 	sort.Strings(fk)
-	run.Case(fmt.Sprintf("history|rerunners=%d|writers=%d|%s|faults=%s|alter=%s", nRerunners, nWriters, strings.Join(shapes, ";"), strings.Join(fk, ","), schemaChange), nEvents > 0 && rerunsAfter+runsAtEnd > int64(nRerunners))
+	run.Case(fmt.Sprintf("history|rerunners=%d|writers=%d|%s|faults=%s|alter=%s|server=%s", nRerunners, nWriters, strings.Join(shapes, ";"), strings.Join(fk, ","), schemaChange, server), nEvents > 0 && rerunsAfter+runsAtEnd > int64(nRerunners))
 
 	witness := func(sq staleQuery, what string) map[string]interface{} {
 		var fs []string
@@ -1661,7 +1851,7 @@ func runHistory(run *vlib.Run, i int, fixed *fixedPlan) {
 			"what": what, "history": i, "query": sq.q.describe(), "holds": sq.last.String(), "database_returns": want[sq.q.id].String(),
 			"query_runs": sq.runs, "commits_visible_to_its_last_select": sq.snap, "commits_total": atomic.LoadInt64(&h.commits),
 			"events": eventLog, "undecodable_events": fs, "decode_failures_logged": decodeErrors,
-			"reruns_after_last_delivery": rerunsAfter, "protocol": proto,
+			"reruns_after_last_delivery": rerunsAfter, "protocol": proto, "server": server,
 		}
 		if stuck != "" {
 			w["stuck"] = stuck
@@ -1775,12 +1965,13 @@ func TestCheck(t *testing.T) {
 	run.Rule("history = fresh fake-SQL engine with 3 table shapes (wides: every int width signed/unsigned, float32/64, bool, string, named scalars, []byte, time, pointer variants of int/string/bool/time/float, implicitnull, string/binary/json tags; pairs: composite key; tinies: string key) seeded with a few rows; " +
 		"1-6 reactive.Rerunners each running 1-3 LiveDB.Query/QueryRow with filters over 0-3 random columns (values in the field's type, other int widths, named types, pointers, nil / typed nil); 1-3 concurrent writers committing InsertRow(s)/UpdateRow/DeleteRow/UpsertRow(s), alone or in WithTx (commit or rollback); " +
 		"the engine's commits become TABLE_MAP + WRITE/UPDATE/DELETE_ROWS_EVENTv2 events in binlog decoder forms (sized ints, signed for unsigned columns, float32, string or []byte text, datetime strings) pushed in commit order with seeded delays into the production RunPollLoop; seeded delays around every SELECT snapshot and the verif yield points perturb the register/read/commit/deliver order; " +
+		"half of the histories run on a SHARED server: the change log interleaves TABLE_MAP + rows events of 2-5 untracked tables (other databases, one with a tracked table's name; tables of the tracked database without descriptor) with the tracked ones, all tables take their ids from one counter, and 0-2 server restarts re-assign every table's id in a seeded order, so that an id announced for an untracked table later announces a tracked one and tracked tables take each other's ids (every rows event still follows the table map that defines its id); " +
 		"40% of histories contain 1-2 undecodable events (wrong column count, wrong value kind, odd number of update rows) that describe real commits, 25% a schema change (with or without a renewed table id). Verdict at observed quiescence (all writers done, all events delivered, no statement/event/compute activity): each live query holds what a fresh non-live query returns. " +
 		"A second sequential monitor compares sqlgen's MakeTester(filter).Test(row) with the database's answer for random rows and filters of all column kinds. " +
 		"Evaluation = one history or one tester case; non-trivial = history with events and re-runs / tester filter with a matching row; distinct = query shapes + fault kinds, resp. table + filter representation.")
 	run.Assume("fakesql evaluates WHERE like MySQL for the argument forms sqlgen sends; a fresh non-live Query on the final table is the reference")
 	run.Assume("binlog value forms are those of the pinned go-mysql row decoder; times are whole seconds because that decoder drops DATETIME fractions")
-	run.Assume("events are delivered in commit order, each rows event preceded by its table map, as MySQL does")
+	run.Assume("events are delivered in commit order, each rows event preceded by its table map, as MySQL does; table ids are unique among the tables open at one time but not across server restarts (the replication client reconnects and keeps streaming)")
 	reactive.WriteThenReadDelay = 0
 	y := vlib.NewYielder(run.Seed(), 25)
 	y.Install()
